@@ -37,20 +37,24 @@ pub fn tables(seed: u64, per_kind: usize) -> Vec<super::CampaignRes> {
     let config2 = make_test_config();
     let params = fri_verifier_params();
     let lookup_gadget = p3_lookup::logup::LogUpGadget::new();
-    let mut cb = p3_circuit::CircuitBuilder::<EF>::new();
-    enable_perm(&mut cb);
-    let (vi, op_ids) = p3_recursion::verifier::verify_p3_batch_proof_circuit::<SC, CapT, InputT, OpeningT, p3_lookup::logup::LogUpGadget, _, WIDTH, RATE, 1>(
-        &config2,
-        &mut cb,
-        &bsp,
-        &params,
-        &bsp.stark_common,
-        &lookup_gadget,
-        perm_config(),
-        &[],
-    )
-    .unwrap_or_else(|e| panic!("verifier circuit: {e:?}"));
-    let circuit = cb.build().unwrap_or_else(|e| panic!("build: {e:?}"));
+    let build = |bsp: &p3_circuit_prover::BatchStarkProof<SC>| -> Result<(BatchBuilder, p3_circuit::Circuit<EF>, Vec<p3_circuit::NonPrimitiveOpId>), String> {
+        let mut cb = p3_circuit::CircuitBuilder::<EF>::new();
+        enable_perm(&mut cb);
+        let (vi, op_ids) = p3_recursion::verifier::verify_p3_batch_proof_circuit::<SC, CapT, InputT, OpeningT, p3_lookup::logup::LogUpGadget, _, WIDTH, RATE, 1>(
+            &config2,
+            &mut cb,
+            bsp,
+            &params,
+            &bsp.stark_common,
+            &lookup_gadget,
+            perm_config(),
+            &[],
+        )
+        .map_err(|e| format!("verifier-circuit:{}", short(e)))?;
+        let circuit = cb.build().map_err(|e| format!("build:{}", short(e)))?;
+        Ok((vi, circuit, op_ids))
+    };
+    let (vi, circuit, op_ids) = build(&bsp).unwrap_or_else(|e| panic!("{e}"));
     let positions = circuit.public_flat_len + circuit.private_flat_len;
     let n = bsp.proof.opened_values.instances.len();
     let mut pis: Vec<Vec<F>> = vec![vec![]; n];
@@ -64,6 +68,19 @@ pub fn tables(seed: u64, per_kind: usize) -> Vec<super::CampaignRes> {
                 }
                 Resp::Unit
             }
+            Op::Shape(sv) => {
+                let mut prep: Option<Com> = bsp.stark_common.preprocessed.as_ref().map(|g| g.commitment.clone());
+                swalk_batch(&mut pis, false, &mut bsp.proof, &mut prep, sv);
+                if let (Some(g), Some(c)) = (bsp.stark_common.preprocessed.as_mut(), prep) {
+                    g.commitment = c;
+                }
+                Resp::Unit
+            }
+            Op::Rebuild => Resp::Res((|| {
+                let (vi2, c2, ops2) = build(&bsp)?;
+                let (pv, sv) = vi2.pack_values(&pis, &bsp.proof, &bsp.stark_common);
+                run_circuit(&c2, &pv, &sv, &ops2, &bsp.proof.opening_proof)
+            })()),
             Op::Native => Resp::Bool(prover.verify_all_tables::<F>(&bsp).is_ok()),
             Op::Run => {
                 let (pv, sv) = vi.pack_values(&pis, &bsp.proof, &bsp.stark_common);
